@@ -17,7 +17,11 @@ Definition det_trace (tr : list event) : bool := forallb (fun e => det (snd e)) 
 Definition nocrash_trace (tr : list event) : bool := forallb (fun e => nocrash (snd e)) tr.
 
 Definition pc_det (c : pcT) : bool :=
-  match c with Err0 | Err1 | Err2 | Err3 | Err4 | ErrRec | Fin0 | ExcHold | RelExc => false | _ => true end.
+  match c with
+  | Err0 | Err1 | Err2 | Err3 | Err4 | ErrRec | Fin0 | ExcHold | RelExc => false
+  | Sv false (SRB | SRO | SRD | SRA) => false      (* save(job=...) from _populate_filesystem writes no result *)
+  | _ => true
+  end.
 Definition miss2 (c : pcT) : bool := match c with Miss | Pop1 => true | _ => false end.
 Definition cleared (c : pcT) : bool :=
   match c with
@@ -28,7 +32,8 @@ Definition cleared (c : pcT) : bool :=
 Definition writing (c : pcT) : bool := match c with Sv true SRO | Sv true SRD => true | _ => false end.
 Definition okseen (c : pcT) : bool :=
   match c with
-  | Hit0 | Hit1 | RelHit | Sv true (SRA | SJB | SJO | SJD | SJA | SRel) | Fin3 | Fin4 | Fin5 | RelOk | Post1 | Post2 => true
+  | Hit0 | Hit1 | RelHit | Sv true (SRA | SJB | SJO | SJD | SJA | SRel) | Fin3 | Fin4 | Fin5 | RelOk | Post1 | Post2
+  | Done => true
   | _ => false
   end.
 Definition has_out (c : pcT) : bool :=
@@ -116,7 +121,8 @@ Section C10.
   Definition proc_valid (q : proc) : Prop :=
     pc_det (pc q) = true /\ r_err q = false /\ raised q = false /\ self_err q = false /\ rerun q = false /\
     (has_out (pc q) = true -> r_out q = Some bv) /\
-    (forall o, ret q = Some o -> o = Returned ok).
+    (forall o, ret q = Some o -> o = Returned ok) /\
+    dirty q = false.
 
   Definition is_writing_ok (f : fstate res) : Prop := match f with Writing r _ => r = ok | _ => False end.
 
@@ -125,7 +131,8 @@ Section C10.
     (miss2 (pc q) = true -> load_result g = None) /\
     (cleared (pc q) = true -> resf g = Absent) /\
     (writing (pc q) = true -> is_writing_ok (resf g)) /\
-    (okseen (pc q) = true -> load_result g = Some ok).
+    (okseen (pc q) = true -> load_result g = Some ok) /\
+    (pc q = Pop2 -> dir g = false).
 
   Ltac spec_all :=
     repeat match goal with
@@ -145,6 +152,7 @@ Section C10.
     all: unfold proc_valid, pk, fs_inv, valid_res, the_result, job_result in *; usepc; spec_all.
     all: try match goal with H : rerun _ = true, H' : rerun _ = false |- _ => congruence end.
     all: try match goal with H : self_err ?q = false |- _ => rewrite H in * end.
+    all: try match goal with H : usable ?o = _ |- _ => destruct o eqn:?; cbn in H; try discriminate H end.
     all: try match goal with H : negb _ = true |- _ => apply negb_true_iff in H end.
     all: try match goal with H : negb _ = false |- _ => apply negb_false_iff in H end.
     all: try match goal with H : load_result ?g = Some ?r |- _ => pose proof (LV _ H); subst r end.
@@ -155,13 +163,15 @@ Section C10.
     all: try (match goal with H : Complete _ = Complete _ |- _ => inversion H end; reflexivity).
     all: try reflexivity.
     all: try (apply load_complete; cbn; auto; fail).
+    all: match goal with LV : forall r0, Some ?r = Some r0 -> _ |- _ => pose proof (LV r eq_refl) as Er; rewrite Er in *; discriminate end.
   Qed.
 
   Ltac setup H Da :=
     inv_lstep H; try discriminate Da; fin H;
     unfold proc_valid, pk, fs_inv, valid_res, the_result, job_result in *; usepc; spec_all;
     try match goal with H : rerun _ = true, H' : rerun _ = false |- _ => congruence end;
-    try match goal with H : self_err ?q = false |- _ => rewrite H in * end.
+    try match goal with H : self_err ?q = false |- _ => rewrite H in * end;
+    try match goal with H : usable ?o = _ |- _ => destruct o eqn:?; cbn in H; try discriminate H end.
 
   (* once the body's value can be read back, no step of anybody makes it unreadable *)
   Lemma load_stable p q g a q' g' :
@@ -183,13 +193,13 @@ Section C10.
 
   Lemma pk_frame q g g' : dir g' = dir g -> resf g' = resf g -> pk q g -> pk q g'.
   Proof.
-    intros D R (P1 & P2 & P3 & P4). unfold pk. rewrite (load_frame _ _ D R), R. auto.
+    intros D R (P1 & P2 & P3 & P4 & P5). unfold pk. rewrite (load_frame _ _ D R), R, D. auto.
   Qed.
 
   Lemma pk_outside q g g' :
     holds (pc q) = false -> (load_result g = Some ok -> load_result g' = Some ok) -> pk q g -> pk q g'.
   Proof.
-    intros Hh St (P1 & P2 & P3 & P4). unfold pk.
+    intros Hh St (P1 & P2 & P3 & P4 & P5). unfold pk.
     destruct (pc q) as [| | | | | | | | |f i| | | | | | | | | | | | | | | | | | | | | | | | | | | ];
       cbn in *; try discriminate; repeat split; intros; try discriminate; auto.
   Qed.
@@ -265,7 +275,7 @@ Section C10.
     det_trace tr = true -> run (init pre) tr = Some s -> ret (procs s p) = Some o -> o = Returned ok.
   Proof.
     intros D R E. destruct (all_inv_reachable _ _ _ D R) as (_ & _ & _ & PV & _).
-    destruct (PV p) as (_ & _ & _ & _ & _ & _ & Hr). auto.
+    destruct (PV p) as (_ & _ & _ & _ & _ & _ & Hr & _). auto.
   Qed.
 
   (* ---- counting body executions: no crash *)
@@ -308,6 +318,7 @@ Section C10.
     all: try match goal with H : load_result ?g = Some ?r |- _ => pose proof (LV _ H); subst r; discriminate end.
     all: try (destruct A4 as [A4|[A4|A4]]; congruence).
     all: try (rewrite load_absent in * by assumption; discriminate).
+    all: try (match goal with LV : forall r0, Some ?r = Some r0 -> _ |- _ => pose proof (LV r eq_refl) as Er; rewrite Er in *; discriminate end).
   Qed.
 
   Ltac by_pc c := destruct c as [| | | | | | | | |[] []| | | | | | | | | | | | | | | | | | | | | | | | | | | ]; cbn; intros; try discriminate; auto.
@@ -410,8 +421,8 @@ Section C10.
     intros C R. destruct (clean_reachable _ _ _ C R) as [(LI & _ & (V & PV & PK)) (R0 & R1 & R2 & R3 & R5 & _)].
     split; [|split].
     - destruct R5 as [E|[E|(h & _ & Ph)]]; [lia|rewrite (R3 E); lia|rewrite (R2 h Ph); lia].
-    - intros p o E _. destruct (PV p) as (_ & _ & _ & _ & _ & _ & Hr). auto.
-    - intros p Hp. apply R3. destruct (PK p (R0 p)) as (_ & _ & _ & P4). auto.
+    - intros p o E _. destruct (PV p) as (_ & _ & _ & _ & _ & _ & Hr & _). auto.
+    - intros p Hp. apply R3. destruct (PK p (R0 p)) as (_ & _ & _ & P4 & _). auto.
   Qed.
 
   (* C10_no_partial_read: without crashes the check under the lock and the caller's final read never even
@@ -431,7 +442,7 @@ Section C10.
     - intros E. destruct (is_writing (resf (gl s))) eqn:W.
       + right. destruct (R6 eq_refl) as (h & Lh & Wh). exists h. split; [|auto].
         intros ->. destruct E as [E|E]; rewrite E in Wh; discriminate.
-      + left. split; [|reflexivity]. destruct (PK p (R0 p)) as (_ & _ & _ & P4). apply P4.
+      + left. split; [|reflexivity]. destruct (PK p (R0 p)) as (_ & _ & _ & P4 & _). apply P4.
         destruct E as [E|E]; rewrite E; reflexivity.
   Qed.
 End C10.
